@@ -301,7 +301,7 @@ def env_cfg(seed: int, k: int) -> dict:
         rng.shuffle(order)
     return {"plen": plen, "extra": extra, "order": order, "aad": [None, "ESXConfiguration", "x", "a much longer associated data string " * 3][k % 4],
             "padding": None if k % 5 else rng.choice([0, 1, 100, 4095, 5000]), "filler": rng.choice([0, 0xA5, 0xFF]), "seed": rng.getrandbits(40),
-            "ks_style": k % 16, "fill_to": fill_to}
+            "ks_style": (k * 7) % 64, "fill_to": fill_to}
 
 
 def build_env(cfg: dict):
